@@ -102,10 +102,11 @@ CLAIMED = {
             REC + "Outside the claim: 'never if the acknowledgement arrived first' (a stale heap record meets complete_operation_as_failure's 'does not exist' branch, inside the stubbed function).", "5 C18", TECH),
     "C19": ("For every base/max/stability Duration and both jitter modes the solver decides: normalize() yields the swapped/raised pair; one "
             "back-off step from any period in [base,max] returns the current period (or, under rand's contract, a value at most that) and stores "
-            "min(2*period, max) without panicking; the first two waits after MqttClientImpl::new are the normalized base and its clamped double. "
+            "min(2*period, max) without panicking; the first two waits after MqttClientImpl::new are the normalized base and its clamped double; leaving Connected "
+            "resets the period to the base exactly when the connection outlived the stability period and always forgets the connection's timestamp. "
             "Two SMT lemmas lift the one-step relation to the closed form min(base*2^k, max).",
-            "Outside the claim: the reset-after-stability rule (three lines in transition_to_state, which drives the engine entry points); the inside of "
-            "compute_uniform_jitter_period (replaced by rand's documented gen_range contract).",
+            "Outside the claim: the inside of compute_uniform_jitter_period (replaced by rand's documented gen_range contract); in the reset-rule harnesses the engine entry point and the "
+            "listener broadcast are replaced by recorders; histories of attempts are composed on paper from the one-step facts.",
             "5 C19", LEMMA_TECH),
     "C20": ("apply_aws_defaults over every combination of protocol mode / user-set drain policy / retry limit with all other client options symbolic and preserved; build_final_connect_options keeps the user's client id or generates a "
             "non-empty one and preserves the scalar connect options and custom-auth credentials; thorough tier: the custom-auth query string for 2-byte signatures over {a,+,/,=} with real formatting.",
